@@ -163,7 +163,7 @@ class JsonDocument(HierDictDocument):
         if issubclass(cls, (DateTime, Date, Time)) and not (
                                     isinstance(val, six.string_types) and
                                                  cls.validate_string(cls, val)):
-            raise ValidationError(key, val)
+            raise ValidationError([key, val])
 
     @property
     def message(self):
